@@ -124,6 +124,9 @@ class SymbolicDraws(Draws):
     def _ignore(self):
         raise IgnoreAttempt("assume")
 
+    def untraced(self):
+        return NoTracing()
+
 
 def pin_real_floats():
     """pin CrossHair's float model to real arithmetic for this path (DESIGN 2.1)"""
